@@ -201,7 +201,10 @@ CLAIMS = {
          "callback, restriction, parse error in the n-th drop-in — every econf_file created is freed exactly once or handed to "
          "the caller; nothing freed twice or without having been created), C20_*_owned (the out-pointer afterwards: one object "
          "on success; readDirs' empty object / NULL / no history on failure), C20_ledger_matches_reader (the instrumented flow "
-         "has the outcome of the reader model that the correspondence runs tie to the code). Strings inside objects, "
+         "has the outcome of the reader model that the correspondence runs tie to the code); at BLOCK granularity for "
+         "econf_newKeyFile_with_options (OptLedger.v): C20_options_owned (for every option string, unknown items and repeated "
+         "list items of any lengths included, the live blocks after the call are exactly those reachable from the object, nothing "
+         "freed twice, econf_free releases all), C20_options_code (same code as the C15 model). Other strings inside objects, "
          "uninitialised reads and allocator state are runtime: AddressSanitizer + a LeakSanitizer check after EVERY scenario "
          "(all handles released with the documented free functions) on C11 histories and layered reads with a failure injected "
          "at each consulted file; free functions called with NULL."),
